@@ -17,6 +17,7 @@ pub fn info() -> PropInfo {
             "bit-frequency clause: false-alarm probability ~1e-13 per run",
         ],
         needs_mock: false,
+        rounds: 1,
     }
 }
 
